@@ -161,6 +161,39 @@ func kopWeight(o kop) float64 {
 	return 0
 }
 
+// drawSpread draws 65..160 unit adds whose bins are 33 indexes apart, in shuffled order: in a paginated store
+// they all stay in the buffer (no page gets 32 entries), which makes encodings with long index-delta blocks
+// and decoders that work in batches.
+func (g *kopGen) drawSpread(t *rapid.T, total float64) kop {
+	n := rapid.IntRange(65, 160).Draw(t, "spreadn")
+	if !g.bud.Fits(total + float64(n)) {
+		return kop{Kind: "addw", V: g.dom.clamp(g.dom.m.Value(g.dom.lo)), W: 0}
+	}
+	d := g.dom
+	centre := d.lo + (d.hi-d.lo)/2
+	neg := g.prof.neg && (!g.prof.pos || rapid.Bool().Draw(t, "spreadneg"))
+	ks := rapid.Permutation(func() []int {
+		o := make([]int, n)
+		for i := range o {
+			o[i] = i - n/2
+		}
+		return o
+	}()).Draw(t, "spreadorder")
+	var vs []float64
+	for _, k := range ks {
+		i := centre + 33*k
+		if i <= d.minIdx || i >= d.maxIdx {
+			continue
+		}
+		v := d.clamp(d.m.Value(i))
+		if neg {
+			v = -v
+		}
+		vs = append(vs, v)
+	}
+	return kop{Kind: "burst", Burst: vs}
+}
+
 // drawBurst draws many unit adds inside a narrow sub-window (what makes the paginated store create pages and compact).
 func (g *kopGen) drawBurst(t *rapid.T, total float64) kop {
 	n := rapid.IntRange(20, 160).Draw(t, "burstn")
@@ -403,6 +436,8 @@ func (g *kopGen) drawOp(t *rapid.T, u *skUT) kop {
 		return g.drawAdd(t, total)
 	case "burst":
 		return g.drawBurst(t, total)
+	case "spread":
+		return g.drawSpread(t, total)
 	case "bad":
 		return g.drawBad(t)
 	case "merge", "decmerge":
